@@ -40,10 +40,11 @@ type concOut struct {
 	Docs []string
 	N    int
 	Has  bool
+	IDs  []string // Insert: the _id every document of the batch ended up with
 }
 
 func (o concOut) String() string {
-	return fmt.Sprintf("err=%s n=%d has=%v docs=%v", o.Err, o.N, o.Has, o.Docs)
+	return fmt.Sprintf("err=%s n=%d has=%v docs=%v ids=%v", o.Err, o.N, o.Has, o.Docs, o.IDs)
 }
 
 func concErrClass(err error) string {
@@ -160,7 +161,11 @@ func genConc(job *Job, prop string, seed, idx uint64) *RunOutcome {
 					if r.Chance(0.25) {
 						id = spare[r.Intn(len(spare))] // may collide with another client's insert: duplicate key
 					}
-					op.Docs = append(op.Docs, val.Wrap(map[string]interface{}{"_id": id, "g": int64(r.Intn(3)), "b": tag, "v": u("i")}))
+					d := map[string]interface{}{"_id": id, "g": int64(r.Intn(3)), "b": tag, "v": u("i")}
+					if r.Chance(0.3) {
+						delete(d, "_id") // the library generates the id (concurrently with the other clients)
+					}
+					op.Docs = append(op.Docs, val.Wrap(d))
 				}
 				ops = append(ops, op)
 			case 1:
@@ -307,9 +312,23 @@ func concStep(st *model.DB, op *Op, out concOut) (bool, *model.DB) {
 	}
 	switch op.K {
 	case "Insert":
+		docs := op.docMaps()
+		if len(out.IDs) != len(docs) {
+			return false, st
+		}
 		seen := map[string]bool{}
-		for _, d := range op.docMaps() {
-			id := d["_id"].(string)
+		for i, d := range docs {
+			id, given := d["_id"].(string)
+			if !given {
+				// generated: must be a canonical UUID, and it is what the document is stored under
+				id = out.IDs[i]
+				if !idValid(id) {
+					return false, st
+				}
+				d["_id"] = id
+			} else if out.IDs[i] != id {
+				return false, st
+			}
 			if _, live := c.Docs[id]; live || seen[id] {
 				return expectErr("ErrDuplicateKey"), st
 			}
@@ -319,7 +338,7 @@ func concStep(st *model.DB, op *Op, out concOut) (bool, *model.DB) {
 			return false, st
 		}
 		return true, mutate(func(nc *model.Coll) {
-			for _, d := range op.docMaps() {
+			for _, d := range docs {
 				nc.Docs[d["_id"].(string)] = d
 			}
 		})
@@ -528,6 +547,9 @@ func (cr *concRun) execOp(op *Op) (out concOut) {
 			cd[i] = DocToClover(d)
 		}
 		out.Err = concErrClass(cr.db.Insert(op.Coll, cd...))
+		for _, d := range cd {
+			out.IDs = append(out.IDs, d.ObjectId())
+		}
 	case "UpdateById":
 		var rec []updRecord
 		out.Err = concErrClass(cr.db.UpdateById(op.Coll, op.ID, makeUpdater(op, &rec)))
